@@ -82,7 +82,23 @@ class World:
         shutil.rmtree(self.root, ignore_errors=True)
         for d in (self.home, self.xdg, self.repo):
             os.makedirs(d)
-        self.git("init", "-q", "-b", "main")
+        # repository layout: a plain `git init`, a repository whose git directory lives elsewhere (`.git` is a FILE
+        # pointing there), or a linked work tree of another repository (`git worktree add`: `.git` is a file too)
+        layout = self.state.get("layout", "plain")
+        self.gitcommon = os.path.join(self.repo, ".git")
+        if layout == "separate-git-dir":
+            self.gitcommon = os.path.join(self.root, "elsewhere.git")
+            self.git("init", "-q", "-b", "main", "--separate-git-dir", self.gitcommon, self.repo, cwd=self.root)
+        elif layout == "linked-worktree":
+            main = os.path.join(self.root, "main-repo")
+            os.makedirs(main)
+            self.git("init", "-q", "-b", "main", cwd=main)
+            self.git("-c", "user.name=v", "-c", "user.email=v@v", "commit", "-q", "--allow-empty", "-m", "root", cwd=main)
+            os.rmdir(self.repo)
+            self.git("worktree", "add", "-q", "-b", "wt", self.repo, cwd=main)
+            self.gitcommon = os.path.join(main, ".git")
+        else:
+            self.git("init", "-q", "-b", "main")
         st = self.state
         sflag = ["--global"] if self.scope == "global" else ["--local"]
         # foreign settings in BOTH scopes (the other scope must never change)
@@ -139,9 +155,12 @@ class World:
 
     def tree(self):
         h = {}
-        for base in (self.home, self.xdg, self.repo):
+        bases = [self.home, self.xdg, self.repo]
+        if not self.gitcommon.startswith(self.repo + os.sep):
+            bases.append(os.path.dirname(self.gitcommon) if self.gitcommon.endswith(os.sep + ".git") else self.gitcommon)
+        for base in bases:
             for dp, dn, fn in os.walk(base):
-                if os.path.join(".git", "objects") in dp or os.path.join(".git", "hooks") in dp:
+                if os.sep + "objects" in dp or os.sep + "hooks" in dp or os.sep + "logs" in dp:
                     continue
                 for f in fn:
                     p = os.path.join(dp, f)
@@ -247,11 +266,11 @@ def judge_step(col, w, cmd, before, after, rc, err, wit):
             col.violation("merge-driver-not-routed-after-enable", "%s: git check-attr merge x.ipynb = %r, attributes %r" % (cmd, attrs.get("merge"), aa), wit, "enable")
     # files
     col.mon("files")
-    allowed = {os.path.relpath(p, w.root) for p in (os.path.join(w.repo, ".git", "config"), os.path.join(w.home, ".gitconfig"), w.attr_path())}
+    allowed = {os.path.relpath(p, w.root) for p in (os.path.join(w.gitcommon, "config"), os.path.join(w.home, ".gitconfig"), w.attr_path())}
     changed = {p for p in set(before["tree"]) | set(after["tree"]) if before["tree"].get(p) != after["tree"].get(p)}
     if changed - allowed:
         col.violation("file-outside-config-and-attributes-changed", "%s touched %s" % (cmd, sorted(changed - allowed)[:4]), wit, "files")
-    if scope_key == "global" and os.path.relpath(os.path.join(w.repo, ".git", "config"), w.root) in changed:
+    if scope_key == "global" and os.path.relpath(os.path.join(w.gitcommon, "config"), w.root) in changed:
         col.violation("global-command-wrote-repository-config", str(cmd), wit, "files")
     return before["local"] != after["local"] or before["global"] != after["global"] or ba != aa
 
@@ -273,6 +292,7 @@ def run_shard(spec):
                   "mergetool.prompt": r.choice([None, "true", "false"]),
                   "attributes": r.choice(["absent", "unrelated", "unrelated_nonl", "already", "other_driver"]),
                   "custom_attributesfile": r.random() < 0.25, "xdg": r.choice(["dir", "dir", "unset", "empty"]),
+                  "layout": r.choice(["plain", "plain", "separate-git-dir", "linked-worktree"]),
                   "other:merge.tool": r.choice(tools3), "other:diff.guitool": r.choice(tools3)}
             states.append((r.choice(["repository", "global"]), st))
         seqs = None
@@ -327,6 +347,7 @@ def run_shard(spec):
             if changed_any and foreign:
                 col.nt(chash(scope, st, [list(c) for c in seq]))
                 col.count("scope:" + scope)
+                col.count("repository_layout:" + st.get("layout", "plain"))
                 if scope == "global":
                     col.count("global_scope_XDG_CONFIG_HOME:" + st.get("xdg", "dir"))
                 col.count("attributes_state:" + st["attributes"])
